@@ -1,10 +1,13 @@
 (* Properties_C04.v — C04: load -> save -> load preserves a file's content; further saves are byte-identical.
    FULL STATEMENT (visible): for every well-formed file b1 with load b1 = Ok s1, save s1 = Ok b2:
        load b2 = Ok s2 /\ named_content s2 = named_content s1,  and  save s2 = Ok b2  (hence all later
-   generations are byte-identical).  Decided today by the C04 check on the C02 corpus and the vendor
-   files.  Proved in Coq: the second half follows from the first by determinism of save; the first
-   half's stages proved so far are those of C01/C02 (data section, scalars, layout). *)
-From EZ Require Import Base Bytes Types Api Enc Dec Float32 Run Proofs_Codec.
+   generations are byte-identical).  PROVED for every well-formed object (the hypotheses of C01_load_save):
+   the object reloaded from its own file saves to the SAME BYTES (C04_save_of_reloaded: names are written upper-cased
+   anyway, the DATA_START value and the header data-start word are patched anyway, point and channel names are not
+   written), hence load (save s) = s1 and save s1 = save s, and every later generation is byte-identical and reloads to
+   s1 (C04_generations_fixpoint).  Outside those hypotheses (placeholder groups of sparse group ids, non-zero reserved
+   header words) the property is decided by the C04 check on the spec-encoded corpus and the vendor files. *)
+From EZ Require Import Base Bytes Types Api Enc Dec Float32 Run Proofs_Codec Proofs_Section Proofs_Record Proofs_Chain Proofs_ChainW Proofs_HeaderCodec Proofs_RoundTrip.
 Local Open Scope N_scope.
 
 (* once a generation reloads to a state that saves to the same bytes, every later generation is byte-identical *)
@@ -16,6 +19,41 @@ Proof.
   simpl Nat.iter. rewrite IH. cbn [obind]. rewrite Hl. cbn [obind]. exact Hs.
 Qed.
 Print Assumptions C04_generations_fixpoint.
+
+(* the reloaded object saves to the same file *)
+Theorem C04_save_of_reloaded : forall s blocks pn an,
+  ps_start (pro s) = 1 ->
+  (forall g, In g (groups s) -> forall p, In p (g_params g) -> ds_name_stable p) ->
+  save (reloaded s blocks pn an) = save s.
+Proof. exact save_reloaded. Qed.
+Print Assumptions C04_save_of_reloaded.
+
+(* generation 1 -> generation 2: same content, same bytes, for every well-formed object *)
+Theorem C04_second_generation : forall f_key f_tosize f_div s bytes sec blocks pn an,
+  save s = Ok bytes -> section_bytes (pro s) (groups s) = Ok (sec, blocks) ->
+  wf_hdr (hdr s) -> wf_header (hdr s) ->
+  ok_tree (groups s) -> (nds (recs_of (groups s) 1) <= 1)%nat ->
+  (forall g, In g (groups s) -> is_placeholder g = false /\ group_ok g) ->
+  blocks + 1 < 256 -> ps_start (pro s) = 1 ->
+  Forall wf_item (items_v (groups s) 1 (blocks + 1)) ->
+  (let s1 := mkState (with_dstart (hdr s) (blocks + 1)) (mkPro 1 80 (blocks - 1) 84) (map (canon_g (blocks + 1)) (groups s)) [] in
+   update_header f_key f_tosize f_div false s1 = ROk tt s1) ->
+  (let h := with_dstart (hdr s) (blocks + 1) in let gs := map (canon_g (blocks + 1)) (groups s) in
+   h_nb_frames h = nlen (frames s) /\ nlen (frames s) <= max_frames_vec /\
+   nlen (frames s) * (1 + 4 * h_points h + h_byframe h * (1 + h_nb_analogs h)) <= 1048576 /\
+   (if 0 <? h_points h then obind (group_named gs nm_POINT) (fun g => obind (param_named g nm_LABELS) values_as_string) = Ok pn else pn = []) /\
+   (if 0 <? h_nb_analogs h then obind (group_named gs nm_ANALOG) (fun g => obind (param_named g nm_LABELS) values_as_string) = Ok an else an = []) /\
+   (frames s <> [] -> (h_scale h < 0)%Z) /\
+   Forall (uniform (N.to_nat (h_points h)) (N.to_nat (h_byframe h)) (N.to_nat (h_nb_analogs h))) (frames s)) ->
+  (forall g, In g (groups s) -> forall p, In p (g_params g) -> ds_name_stable p) ->
+  exists s1, load f_key f_tosize f_div bytes = Ok s1 /\ save s1 = Ok bytes.
+Proof.
+  intros f_key f_tosize f_div s bytes sec blocks pn an Sv Hs Wh Wl Hok Hn Hg Hb Hst Wf Hu Hd Hds.
+  exists (reloaded s blocks pn an). split.
+  - exact (load_save f_key f_tosize f_div s bytes sec blocks pn an Sv Hs Wh Wl Hok Hn Hg Hb Hst Wf Hu Hd).
+  - rewrite (save_reloaded s blocks pn an Hst Hds). exact Sv.
+Qed.
+Print Assumptions C04_second_generation.
 
 (* frames of generation 2 = frames of generation 1 (data-section stage), for any sizes *)
 Theorem C04_partial_frames : forall fs np ns nc pn an st r,
